@@ -77,3 +77,175 @@ Qed.
 Corollary replay_reach rb w qs ord :
   qs_ok qs = true -> reach rb (fst (fst (sched (S (length ord)) w (init_state rb) qs ord 0))).
 Proof. intros Q. apply sched_reach; [exact Q | apply reach_init; reflexivity]. Qed.
+
+(* ---------------------------------------------------------------- a recorded round, replayed
+   One round of harness/c02_slane.c (two submitting threads, 16 items, a queue created with a UTILITY QoS attribute, 40 %
+   schedule perturbation; it contains a DIRTY retry of the drainer): the action lists SLaneR.abstract read off the three
+   thread traces and the order lib/props/c01_slane.py derived from the recorder's stamps and the exact dq_state /
+   dq_items_tail chains.  The scheduler consumes all 154 actions: the model ends with the recorded dq_state, an empty list,
+   nothing in the root queue, every thread idle and items 0..15 started in that order. *)
+(* seed 28 round 27 kind 10 threads 2 items 16 result [154, 0, 9005068950962176, 0, 0, 16, 1, 16, 1, -1] final 9005068950962176 *)
+Definition SA (t : Z) (m : mact) (i : Z) : sact := {| s_tid := t; s_act := m; s_id := i |}.
+Definition ex_rb : Z := 1.
+Definition ex_qs : list (Z * list sact) := [
+  (2719, [SA 2719 (MA 1 0 7 (-1) 0 0) (-1);
+     SA 2719 (MA 2 0 7 (-1) 0 0) (-1);
+     SA 2719 (MA 2 0 8 27021681516087967 0 0) (-1);
+     SA 2719 (MA 2 0 9 (-1) 0 0) (-1);
+     SA 2719 (MA 2 0 10 (-1) 0 0) (-1);
+     SA 2719 (MA 2 0 12 (-1) 139825546009056 0) 0;
+     SA 2719 (MA 2 0 14 (-1) 139825546009056 0) 0;
+     SA 2719 (MA 2 0 16 (-1) 0 0) (-1);
+     SA 2719 (MA 2 0 10 (-1) 0 0) (-1);
+     SA 2719 (MA 2 0 12 (-1) 139825546009136 0) 1;
+     SA 2719 (MA 2 0 14 (-1) 139825546009136 0) 1;
+     SA 2719 (MA 2 0 16 (-1) 0 0) (-1);
+     SA 2719 (MA 2 0 10 (-1) 0 0) (-1);
+     SA 2719 (MA 2 0 12 (-1) 139826150000944 0) 2;
+     SA 2719 (MA 2 0 14 (-1) 139826150000944 0) 2;
+     SA 2719 (MA 2 0 16 (-1) 0 0) (-1);
+     SA 2719 (MA 2 0 10 (-1) 0 0) (-1);
+     SA 2719 (MA 2 0 12 (-1) 139826150001024 0) 3;
+     SA 2719 (MA 2 0 14 (-1) 139826150001024 0) 3;
+     SA 2719 (MA 2 0 16 (-1) 0 0) (-1);
+     SA 2719 (MA 2 0 10 (-1) 0 0) (-1);
+     SA 2719 (MA 2 0 12 (-1) 139826150001104 0) 4;
+     SA 2719 (MA 2 0 14 (-1) 139826150001104 0) 4;
+     SA 2719 (MA 2 0 16 (-1) 0 0) (-1);
+     SA 2719 (MA 2 0 10 (-1) 0 0) (-1);
+     SA 2719 (MA 2 0 12 (-1) 139826150001184 0) 5;
+     SA 2719 (MA 2 0 14 (-1) 139826150001184 0) 5;
+     SA 2719 (MA 2 0 16 (-1) 0 0) (-1);
+     SA 2719 (MA 2 0 10 (-1) 0 0) (-1);
+     SA 2719 (MA 2 0 12 (-1) 139825546009216 0) 6;
+     SA 2719 (MA 2 0 14 (-1) 139825546009216 0) 6;
+     SA 2719 (MA 2 0 16 (-1) 0 0) (-1);
+     SA 2719 (MA 2 0 10 (-1) 0 0) (-1);
+     SA 2719 (MA 2 0 11 (-1) 139826150001264 0) 7;
+     SA 2719 (MA 2 0 13 (-1) 139826150001264 0) 7;
+     SA 2719 (MA 2 0 15 (-1) 0 0) (-1);
+     SA 2719 (MA 2 0 17 (-1) 0 1) (-1);
+     SA 2719 (MA 2 0 18 (-1) 0 0) (-1);
+     SA 2719 (MA 2 0 8 27021681516087967 0 0) (-1);
+     SA 2719 (MA 2 0 9 (-1) 0 0) (-1);
+     SA 2719 (MA 2 0 10 (-1) 0 0) (-1);
+     SA 2719 (MA 2 0 12 (-1) 139826150001344 0) 8;
+     SA 2719 (MA 2 0 14 (-1) 139826150001344 0) 8;
+     SA 2719 (MA 2 0 16 (-1) 0 0) (-1);
+     SA 2719 (MA 2 0 10 (-1) 0 0) (-1);
+     SA 2719 (MA 2 0 12 (-1) 139826150001424 0) 9;
+     SA 2719 (MA 2 0 14 (-1) 139826150001424 0) 9;
+     SA 2719 (MA 2 0 16 (-1) 0 0) (-1);
+     SA 2719 (MA 2 0 10 (-1) 0 0) (-1);
+     SA 2719 (MA 2 0 11 (-1) 139825546009296 0) 10;
+     SA 2719 (MA 2 0 13 (-1) 139825546009296 0) 10;
+     SA 2719 (MA 2 0 15 (-1) 0 0) (-1);
+     SA 2719 (MA 2 0 17 (-1) 0 1) (-1);
+     SA 2719 (MA 2 0 0 9005068950962176 0 0) (-1);
+     SA 2719 (MA 1 0 7 (-1) 0 0) (-1);
+     SA 2719 (MA 2 0 7 (-1) 0 0) (-1);
+     SA 2719 (MA 2 0 8 27021681516087967 0 0) (-1);
+     SA 2719 (MA 2 0 9 (-1) 0 0) (-1);
+     SA 2719 (MA 2 0 10 (-1) 0 0) (-1);
+     SA 2719 (MA 2 0 12 (-1) 139826150001504 0) 11;
+     SA 2719 (MA 2 0 14 (-1) 139826150001504 0) 11;
+     SA 2719 (MA 2 0 16 (-1) 0 0) (-1);
+     SA 2719 (MA 2 0 10 (-1) 0 0) (-1);
+     SA 2719 (MA 2 0 11 (-1) 139826150001584 0) 12;
+     SA 2719 (MA 2 0 13 (-1) 139826150001584 0) 12;
+     SA 2719 (MA 2 0 15 (-1) 0 0) (-1);
+     SA 2719 (MA 2 0 17 (-1) 0 1) (-1);
+     SA 2719 (MA 2 0 0 9005068950962176 0 0) (-1);
+     SA 2719 (MA 1 0 7 (-1) 0 0) (-1);
+     SA 2719 (MA 2 0 7 (-1) 0 0) (-1);
+     SA 2719 (MA 2 0 8 27021681516087967 0 0) (-1);
+     SA 2719 (MA 2 0 9 (-1) 0 0) (-1);
+     SA 2719 (MA 2 0 10 (-1) 0 0) (-1);
+     SA 2719 (MA 2 0 11 (-1) 139826150001664 0) 13;
+     SA 2719 (MA 2 0 13 (-1) 139826150001664 0) 13;
+     SA 2719 (MA 2 0 15 (-1) 0 0) (-1);
+     SA 2719 (MA 2 0 17 (-1) 0 1) (-1);
+     SA 2719 (MA 2 0 0 9005068950962176 0 0) (-1);
+     SA 2719 (MA 1 0 7 (-1) 0 0) (-1);
+     SA 2719 (MA 2 0 7 (-1) 0 0) (-1);
+     SA 2719 (MA 2 0 8 27021681516087967 0 0) (-1);
+     SA 2719 (MA 2 0 9 (-1) 0 0) (-1);
+     SA 2719 (MA 2 0 10 (-1) 0 0) (-1);
+     SA 2719 (MA 2 0 12 (-1) 139826150001744 0) 14;
+     SA 2719 (MA 2 0 14 (-1) 139826150001744 0) 14;
+     SA 2719 (MA 2 0 16 (-1) 0 0) (-1);
+     SA 2719 (MA 2 0 10 (-1) 0 0) (-1);
+     SA 2719 (MA 2 0 11 (-1) 139826150001824 0) 15;
+     SA 2719 (MA 2 0 13 (-1) 139826150001824 0) 15;
+     SA 2719 (MA 2 0 15 (-1) 0 0) (-1);
+     SA 2719 (MA 2 0 17 (-1) 0 1) (-1);
+     SA 2719 (MA 2 0 0 9005068950962176 0 0) (-1)]);
+  (2773, [SA 2773 (MA 0 3 1 (-1) 0 0) (-1);
+     SA 2773 (MA 2 0 3 (-1) 139825546009056 0) 0;
+     SA 2773 (MA 2 0 4 (-1) 0 0) (-1);
+     SA 2773 (MA 2 0 5 (-1) 0 0) (-1);
+     SA 2773 (MA 2 0 6 9005668098899968 0 0) (-1);
+     SA 2773 (MA 2 0 0 (-1) 0 0) (-1);
+     SA 2773 (MA 0 3 1 (-1) 0 0) (-1);
+     SA 2773 (MA 2 0 2 (-1) 139825546009136 0) 1;
+     SA 2773 (MA 2 0 0 (-1) 0 0) (-1);
+     SA 2773 (MA 0 3 1 (-1) 0 0) (-1);
+     SA 2773 (MA 2 0 2 (-1) 139825546009216 0) 6;
+     SA 2773 (MA 2 0 0 (-1) 0 0) (-1);
+     SA 2773 (MA 0 3 1 (-1) 0 0) (-1);
+     SA 2773 (MA 2 0 2 (-1) 139825546009296 0) 10;
+     SA 2773 (MA 2 0 0 (-1) 0 0) (-1)]);
+  (2772, [SA 2772 (MA 0 3 1 (-1) 0 0) (-1);
+     SA 2772 (MA 2 0 2 (-1) 139826150000944 0) 2;
+     SA 2772 (MA 2 0 0 (-1) 0 0) (-1);
+     SA 2772 (MA 0 3 1 (-1) 0 0) (-1);
+     SA 2772 (MA 2 0 2 (-1) 139826150001024 0) 3;
+     SA 2772 (MA 2 0 0 (-1) 0 0) (-1);
+     SA 2772 (MA 0 3 1 (-1) 0 0) (-1);
+     SA 2772 (MA 2 0 2 (-1) 139826150001104 0) 4;
+     SA 2772 (MA 2 0 0 (-1) 0 0) (-1);
+     SA 2772 (MA 0 3 1 (-1) 0 0) (-1);
+     SA 2772 (MA 2 0 2 (-1) 139826150001184 0) 5;
+     SA 2772 (MA 2 0 0 (-1) 0 0) (-1);
+     SA 2772 (MA 0 3 1 (-1) 0 0) (-1);
+     SA 2772 (MA 2 0 2 (-1) 139826150001264 0) 7;
+     SA 2772 (MA 2 0 0 (-1) 0 0) (-1);
+     SA 2772 (MA 0 3 1 (-1) 0 0) (-1);
+     SA 2772 (MA 2 0 3 (-1) 139826150001344 0) 8;
+     SA 2772 (MA 2 0 4 (-1) 0 0) (-1);
+     SA 2772 (MA 2 0 5 (-1) 0 0) (-1);
+     SA 2772 (MA 2 0 0 27022231271901855 0 0) (-1);
+     SA 2772 (MA 0 3 1 (-1) 0 0) (-1);
+     SA 2772 (MA 2 0 2 (-1) 139826150001424 0) 9;
+     SA 2772 (MA 2 0 0 (-1) 0 0) (-1);
+     SA 2772 (MA 0 3 1 (-1) 0 0) (-1);
+     SA 2772 (MA 2 0 3 (-1) 139826150001504 0) 11;
+     SA 2772 (MA 2 0 4 (-1) 0 0) (-1);
+     SA 2772 (MA 2 0 5 (-1) 0 0) (-1);
+     SA 2772 (MA 2 0 6 9005668098899968 0 0) (-1);
+     SA 2772 (MA 2 0 0 (-1) 0 0) (-1);
+     SA 2772 (MA 0 3 1 (-1) 0 0) (-1);
+     SA 2772 (MA 2 0 2 (-1) 139826150001584 0) 12;
+     SA 2772 (MA 2 0 0 (-1) 0 0) (-1);
+     SA 2772 (MA 0 3 1 (-1) 0 0) (-1);
+     SA 2772 (MA 2 0 3 (-1) 139826150001664 0) 13;
+     SA 2772 (MA 2 0 4 (-1) 0 0) (-1);
+     SA 2772 (MA 2 0 5 (-1) 0 0) (-1);
+     SA 2772 (MA 2 0 6 9005668098899968 0 0) (-1);
+     SA 2772 (MA 2 0 0 (-1) 0 0) (-1);
+     SA 2772 (MA 0 3 1 (-1) 0 0) (-1);
+     SA 2772 (MA 2 0 3 (-1) 139826150001744 0) 14;
+     SA 2772 (MA 2 0 4 (-1) 0 0) (-1);
+     SA 2772 (MA 2 0 5 (-1) 0 0) (-1);
+     SA 2772 (MA 2 0 6 9005668098899968 0 0) (-1);
+     SA 2772 (MA 2 0 0 (-1) 0 0) (-1);
+     SA 2772 (MA 0 3 1 (-1) 0 0) (-1);
+     SA 2772 (MA 2 0 2 (-1) 139826150001824 0) 15;
+     SA 2772 (MA 2 0 0 (-1) 0 0) (-1)])].
+Definition ex_ord : list Z := [2773; 2773; 2773; 2773; 2773; 2773; 2773; 2773; 2719; 2719; 2719; 2719; 2719; 2772; 2772; 2772; 2772; 2772; 2772; 2772; 2772; 2772; 2772; 2772; 2773; 2773; 2773; 2773; 2719; 2719; 2719; 2719; 2772; 2772; 2772; 2772; 2719; 2719; 2772; 2719; 2719; 2719; 2719; 2719; 2719; 2719; 2719; 2719; 2719; 2719; 2719; 2719; 2719; 2719; 2719; 2719; 2719; 2719; 2719; 2719; 2719; 2719; 2719; 2719; 2719; 2772; 2772; 2772; 2772; 2719; 2719; 2719; 2719; 2772; 2772; 2772; 2719; 2719; 2719; 2719; 2773; 2773; 2773; 2719; 2719; 2719; 2719; 2719; 2719; 2719; 2719; 2719; 2772; 2772; 2772; 2772; 2772; 2772; 2772; 2772; 2772; 2719; 2719; 2719; 2719; 2719; 2719; 2719; 2719; 2719; 2719; 2719; 2719; 2719; 2719; 2772; 2772; 2772; 2772; 2772; 2772; 2719; 2719; 2719; 2719; 2719; 2719; 2719; 2719; 2719; 2772; 2719; 2772; 2772; 2772; 2772; 2772; 2772; 2772; 2772; 2719; 2719; 2719; 2719; 2719; 2719; 2719; 2719; 2719; 2719; 2719; 2719; 2719; 2719].
+Definition ex_result : list Z := [154; 0; 9005068950962176; 0; 0; 16; 1; 16; 1; (-1)].
+
+Lemma demo_replay :
+  qs_ok ex_qs = true /\ replay ex_rb 48 ex_qs ex_ord = ex_result /\
+  nth 1 ex_result 1 = 0 /\ nth 0 ex_result 0 = Z.of_nat (length ex_ord).
+Proof. vm_compute. repeat split. Qed.
